@@ -1,5 +1,6 @@
 (* C06 - A join visits exactly the intersection, once each, in index order. *)
-From SV Require Import Base.ListX Store.Masked World.Env World.Join World.JoinProps World.EnvSim World.Simulation.
+From SV Require Import Base.ListX Store.Masked World.Env World.Join World.JoinProps World.JoinAbs World.JoinRefine
+  World.JoinAbsProps World.EnvSim World.Simulation.
 From Coq Require Import Sorting.Sorted.
 
 (* the keys of a join are strictly ascending: index order, each index once *)
@@ -87,6 +88,56 @@ Theorem C06_same_join_under_both_allocators : forall av1 av2 hs,
   forall env eids k ms, env_join env av1 eids hs k ms = env_join env av2 eids hs k ms.
 Proof. exact env_join_cong. Qed.
 
+
+(* ---- what the items carry and what a mutation changes: on the maps the storages represent ---- *)
+(* [absrel unit e S]: S gives, for every registered storage of e, the map (index -> value) it represents.
+   The join on the real storages and the join on these maps yield the same items and stay related *)
+Theorem C06_join_refines_the_join_on_maps : forall unit av hs excl eids ms keys e S, absrel unit e S ->
+  snd (visit_keys av hs excl eids ms keys e) = snd (a_visit_keys unit av hs excl eids ms keys S) /\
+  absrel unit (fst (visit_keys av hs excl eids ms keys e)) (fst (a_visit_keys unit av hs excl eids ms keys S)).
+Proof. exact visit_keys_abs. Qed.
+
+(* ... and a direct lookup (Storage::get of a live entity) returns the cell of the map *)
+Theorem C06_direct_lookup_is_the_cell : forall unit e S sid ms av ent c, absrel unit e S ->
+  NM.find sid (se_stores e) = Some ms -> av_alive av ent = true ->
+  st_get ms av ent c = (NM.find (fst ent) (as_st S sid), c).
+Proof. exact direct_lookup_is_the_cell. Qed.
+
+(* each item carries that index's own component, equal to a direct lookup: a storage member whose predecessors in
+   the tuple do not own its storage hands out, for every visited index, the value the storage held for that index *)
+Theorem C06_items_equal_direct_lookups : forall unit av hs excl eids pre m post s keys S, NoDup keys ->
+  reads_cell m s = true -> forallb (fun m' => negb (m_owns m' s)) pre = true ->
+  forall j xs, In (j, xs) (snd (a_visit_keys unit av hs excl eids (pre ++ m :: post) keys S)) ->
+  nth_error xs (length pre) = Some (JTok (tok_of (cell S s j))).
+Proof. exact join_items_are_the_initial_cells. Qed.
+
+(* a mutation made through an item is visible afterwards on that entity and on no other: the visited cells of the
+   written storage get the change exactly once, its other cells keep their values ... *)
+Theorem C06_mutation_lands_on_the_visited_entities_only : forall unit av hs excl eids pre post s touch z keys S j, NoDup keys ->
+  forallb (fun m => negb (m_owns m s)) pre = true -> forallb (fun m => negb (m_owns m s)) post = true ->
+  cell (fst (a_visit_keys unit av hs excl eids (pre ++ MWrite s touch (Some z) :: post) keys S)) s j =
+    if in_dec N.eq_dec j keys then bump (unit s) z (cell S s j) else cell S s j.
+Proof. exact join_write_lands_on_the_visited_cells_only. Qed.
+
+(* ... and every storage that no member owns (all storages, for a join that only reads) is not changed at all *)
+Theorem C06_other_storages_untouched : forall unit av hs excl eids ms keys S s j, NoDup keys ->
+  forallb (fun m => negb (m_owns m s)) ms = true ->
+  cell (fst (a_visit_keys unit av hs excl eids ms keys S)) s j = cell S s j.
+Proof. exact join_leaves_unowned_storages_alone. Qed.
+
+(* in general: a cell outside the visited indices is untouched, a visited cell receives the effects of the members *)
+Theorem C06_cells_after_a_join : forall unit av hs excl eids ms keys S s j, NoDup keys ->
+  cell (fst (a_visit_keys unit av hs excl eids ms keys S)) s j =
+    if in_dec N.eq_dec j keys then members_eff unit ms j s (cell S s j) else cell S s j.
+Proof. exact a_visit_keys_cell. Qed.
+
+(* a drain removes exactly the visited components *)
+Theorem C06_drain_removes_the_visited_only : forall unit av hs excl eids pre post s keys S j, NoDup keys ->
+  forallb (fun m => negb (m_owns m s)) pre = true -> forallb (fun m => negb (m_owns m s)) post = true ->
+  cell (fst (a_visit_keys unit av hs excl eids (pre ++ MDrain s :: post) keys S)) s j =
+    if in_dec N.eq_dec j keys then None else cell S s j.
+Proof. exact join_drain_removes_the_visited_cells_only. Qed.
+
 (* non-vacuity: a sparse two-storage world joined with a negation and an optional member *)
 Example C06_nonvacuous :
   let e0 := env_register (env_register (env_init false) 0) 3 in
@@ -112,3 +163,10 @@ Print Assumptions C06_lending_lookup_by_entity.
 Print Assumptions C06_lending_lookup_by_index.
 Print Assumptions C06_any_storage_kind_joins_like_the_map.
 Print Assumptions C06_same_join_under_both_allocators.
+Print Assumptions C06_join_refines_the_join_on_maps.
+Print Assumptions C06_direct_lookup_is_the_cell.
+Print Assumptions C06_items_equal_direct_lookups.
+Print Assumptions C06_mutation_lands_on_the_visited_entities_only.
+Print Assumptions C06_other_storages_untouched.
+Print Assumptions C06_cells_after_a_join.
+Print Assumptions C06_drain_removes_the_visited_only.
